@@ -188,7 +188,7 @@ def _gen_cases(unit, ctx):
         ns = [[], [(1, 6, p, c0)], [(0, 3, p, c0), (2, 5, p, c1)]][unit[1]]
         end = max([n[0] + n[1] for n in ns] + [0])
         for t1 in (unit[2],):
-            for e1 in (["ts", t1, 3, 4], ["ks", t1, "G"]):
+            for e1 in (["ts", t1, 3, 4], ["ks", t1, "G"], ["cc", t1, 123, 0], ["cc", t1, 120, 0], ["cc", t1, 64, 127], ["pc", t1, 5]):
                 yield from _emit(_mk(ns), [e1], "rel")
                 if e1[0] == "ts":
                     for t2 in range(0, 9):
